@@ -3,6 +3,9 @@
 import json, subprocess
 ALL = ["C%02d" % i for i in range(1, 21)]
 CLAIMED = {
+ "C04": dict(level="exploration", technique="exactly-once / conservation monitor over three independent execution records (Env.out side channel, work tree, values) vs the expected multiset, run under the Go race detector",
+   text="For generated worlds of rules, facts and events the multiset of action executions observed through a side channel, the returned work tree and the values list must all equal rules x when-bindings x condition-bindings x actions, each with the expected environment; failing actions must fail on their own node only; the race detector watches the concurrent action execution.",
+   note="Expected multiset from lib/ref; action scripts from a template; serial rules with a failing action are only checked for conservation and no-extra-execution.", ref="§5 C04"),
  "C03": dict(level="exploration", technique="differential runtime oracle: Location.Query and rule-condition evaluation inside ProcessEvent vs a reference query evaluator on generated query programs",
    text="Generated query trees (and/or/not/pattern/code, shortCircuit, empty operators, shared variables, inherited facts) are executed by the real engine through two entry points and compared as multisets of bindings with an evaluator written from the property statement; held-on-K-programs assurance for a compositional-semantics claim.",
    note="Trusts lib/ref.Eval and lib/ref.Match; code leaves restricted to a family with known value; facts are flat (scalars and scalar arrays).", ref="§5 C03"),
